@@ -974,6 +974,11 @@ func ruleReasonIffFailed(r *Run, rule string) {
 	sub("final-succs(blocks)", fm.Succs("blocks"), "end", Terminal)
 	sub("final-succs(end)", fm.Succs("end"), Terminal)
 
+	// routing inside the verdict machine follows the examined facts (mutation sweep, session 2: negating
+	// `if skipped` or `if err == nil` left every successor set unchanged)
+	boolGateRouting(r, rule, pkgSM+".finalStates.bypassChecks", pkgSM+".finalStates.examineBypasses", []string{"final.end"}, []string{"final.planChecks"})
+	ruleFinalPlanChecksRouting(r, rule)
+
 	// every path of a finalStates state that assigns Reason or Failed sets Err, and vice versa
 	for _, st := range []string{"planChecks", "blocks", "bypassChecks", "start", "end"} {
 		fn := fm.States[st]
@@ -1055,6 +1060,97 @@ func ruleReasonIffFailed(r *Run, rule string) {
 	}
 	_ = okR
 	_ = pr
+}
+
+// ruleFinalPlanChecksRouting: finalStates.planChecks goes on to the blocks only when examineChecks found no
+// failed group, and on a failure the plan gets the reason examineChecks returned and its error in Err.
+func ruleFinalPlanChecksRouting(r *Run, rule string) {
+	fn := r.fnByKey(rule, pkgSM+".finalStates.planChecks")
+	if fn == nil {
+		return
+	}
+	fl, paths, ok := r.flowPaths(rule, fn)
+	if !ok {
+		return
+	}
+	gate := pkgSM + ".finalStates.examineChecks"
+	badP, badF := "", ""
+	var pP, pF token.Pos = fn.Decl.Pos(), fn.Decl.Pos()
+	nP, nF := 0, 0
+	for i := range paths {
+		p := &paths[i]
+		if p.Exit != ExitReturn {
+			continue
+		}
+		ci := -1
+		for j, e := range p.Ev {
+			if IsCall(e, gate) && e.Depth == 0 {
+				ci = j
+			}
+		}
+		next := nextOf(fl, p)
+		_, errSet, _ := PathNext(fl, p)
+		if ci < 0 {
+			if next == "final.blocks" && badP == "" {
+				badP = "a path reaches blocks without consulting examineChecks (guard " + ExitGuardKey(fl, p) + ")"
+			}
+			continue
+		}
+		use := UseOfResult(fl, p, ci)
+		switch use.Verdict {
+		case "nil":
+			nP++
+			if (next != "final.blocks" || errSet) && badP == "" {
+				badP, pP = "when examineChecks reports no failure the successor is "+next+" (Err set="+boolStr(errSet)+"), expected blocks", p.Ev[ci].Pos
+			}
+		case "nonnil":
+			nF++
+			// the reason assigned must be the one examineChecks returned
+			reasonFromGate := false
+			var reasonObj types.Object
+			for _, e := range p.Ev[ci:] {
+				if e.Kind == EvAssign && e.Depth == 0 && e.Node != nil && len(e.Lhs) >= 1 && reasonObj == nil {
+					if call, isCall := ast.Unparen(e.Rhs[0]).(*ast.CallExpr); isCall && len(e.Rhs) == 1 && call == p.Ev[ci].Call {
+						reasonObj = ObjOf(fl.Info, e.Lhs[0])
+					}
+				}
+			}
+			for j := ci - 1; j <= ci+1 && j < len(p.Ev) && reasonObj == nil; j++ {
+				if j < 0 {
+					continue
+				}
+				e := p.Ev[j]
+				if e.Kind == EvAssign && len(e.Rhs) == 1 && len(e.Lhs) == 2 {
+					if call, isCall := ast.Unparen(e.Rhs[0]).(*ast.CallExpr); isCall && call == p.Ev[ci].Call {
+						reasonObj = ObjOf(fl.Info, e.Lhs[0])
+					}
+				}
+			}
+			for _, e := range p.Ev[ci:] {
+				if e.Kind != EvAssign || len(e.Lhs) != len(e.Rhs) {
+					continue
+				}
+				for k, l := range e.Lhs {
+					if _, m := FieldPath(fl.Info, l, "workflow.Plan", "Reason"); m && reasonObj != nil && ObjOf(fl.Info, e.Rhs[k]) == reasonObj {
+						reasonFromGate = true
+					}
+				}
+			}
+			if (!errSet || next == "final.blocks" || !reasonFromGate) && badF == "" {
+				badF, pF = "when examineChecks reports a failed group: Err set="+boolStr(errSet)+", successor "+next+", reason taken from examineChecks="+boolStr(reasonFromGate)+" — the plan must stop here with that reason", p.Ev[ci].Pos
+			}
+		default:
+			if badP == "" {
+				badP = "the error of examineChecks is " + use.Kind + "/" + use.Verdict + " on a returning path (guard " + ExitGuardKey(fl, p) + ")"
+			}
+		}
+	}
+	if nP == 0 || nF == 0 {
+		r.Unresolved(rule, "finalStates.planChecks tests examineChecks both ways")
+		return
+	}
+	r.Check(rule, "final:planChecks:pass-branch", pP, badP == "", "%s", orOK(badP, "no failed group ⇒ blocks, without Err"))
+	r.Check(rule, "final:planChecks:fail-branch", pF, badF == "", "%s", orOK(badF, "failed group ⇒ Err set, its reason recorded, blocks not examined"))
 }
 
 // ruleExecSeqStatus re-uses the execSeq verdict analysis for C04-R7.
